@@ -925,6 +925,18 @@ func crashBuildTrace(s *crashSpec, evs []crashEvent, upto int) *crashTrace {
 	lastFlushTable := uint64(0)
 	opened := false
 	emit := func(e string) { t.evs = append(t.evs, e) }
+	// a creation hook fires AFTER the file was created; a directory fsync logged just before it
+	// whose listing already shows the new name happened after the creation: the SyncDir event
+	// is moved behind the creation events
+	lastSyncIdx, lastSyncLS := -1, ""
+	moveSync := func(name string) bool {
+		if lastSyncIdx >= 0 && lastSyncIdx < len(t.evs) && t.evs[lastSyncIdx] == "PE SyncDir" && crashHas(lastSyncLS, name) {
+			t.evs = append(t.evs[:lastSyncIdx], t.evs[lastSyncIdx+1:]...)
+			lastSyncIdx = -1
+			return true
+		}
+		return false
+	}
 	for i, ev := range evs {
 		if upto > 0 && ev.Seq > upto {
 			break
@@ -980,8 +992,12 @@ func crashBuildTrace(s *crashSpec, evs []crashEvent, upto int) *crashTrace {
 				emit(fmt.Sprintf("PE (SyncFile (Vlog %d))", vlogcur))
 			}
 			vlogcur = ev.Args[0]
+			moved := moveSync(fmt.Sprintf("%06d.vlog", vlogcur))
 			emit(fmt.Sprintf("PE (Create (Vlog %d))", vlogcur))
 			emit(fmt.Sprintf("PE (Init (Vlog %d))", vlogcur))
+			if moved {
+				emit("PE SyncDir")
+			}
 		case "persist.wal.put":
 			r := nReqDone + 1
 			cs, ok := cells[r]
@@ -1019,8 +1035,12 @@ func crashBuildTrace(s *crashSpec, evs []crashEvent, upto int) *crashTrace {
 			}
 			walcur = ev.Args[0]
 			t.wals[walcur] = true
+			moved := moveSync(fmt.Sprintf("%05d.mem", walcur))
 			emit(fmt.Sprintf("PE (Create (Wal %d))", walcur))
 			emit(fmt.Sprintf("PE (Init (Wal %d))", walcur))
+			if moved {
+				emit("PE SyncDir")
+			}
 		case "persist.flush.begin":
 			// flushes are serial and in WAL order: the k-th flush takes the k-th WAL; when that is
 			// the current WAL the writer has already handed it over (ensureRoomForWrite pushes to
@@ -1033,6 +1053,7 @@ func crashBuildTrace(s *crashSpec, evs []crashEvent, upto int) *crashTrace {
 		case "persist.flush.table":
 			id := ev.Args[0]
 			lastFlushTable = id
+			moved := moveSync(fmt.Sprintf("%06d.sst", id))
 			emit(fmt.Sprintf("PE (Create (Sst %d))", id))
 			emit(fmt.Sprintf("PE (Init (Sst %d))", id))
 			for _, r := range walUnits[flushedUpTo+1] {
@@ -1041,6 +1062,9 @@ func crashBuildTrace(s *crashSpec, evs []crashEvent, upto int) *crashTrace {
 				}
 			}
 			emit(fmt.Sprintf("PE (SyncFile (Sst %d))", id))
+			if moved {
+				emit("PE SyncDir")
+			}
 		case "persist.manifest.before-write":
 		case "persist.manifest.written":
 			emit(fmt.Sprintf("PE (Append Manifest (IM [MCreate %d 0]))", lastFlushTable))
@@ -1059,6 +1083,11 @@ func crashBuildTrace(s *crashSpec, evs []crashEvent, upto int) *crashTrace {
 			}
 		case "persist.syncdir.done":
 			emit("PE SyncDir")
+			lastSyncIdx = len(t.evs) - 1
+			lastSyncLS = ""
+			if i+1 < len(evs) && evs[i+1].Kind == "LS" {
+				lastSyncLS = evs[i+1].Rest
+			}
 		default:
 			fail("hook not covered by the translation: " + ev.Name)
 			return t
@@ -1096,25 +1125,17 @@ func (e *crashEnv) currentFlags() (fixDir, fixZero bool, note string) {
 	} else {
 		fixZero = po.OpenErr == ""
 	}
-	// F9: is a rotation followed by a directory fsync before the next WAL record?
+	// F9: replay the three witnesses on the hook log of a SyncWrites session with a rotation, a
+	// flush and a value-log value: is the new file's name covered by a directory fsync before
+	// it is relied upon (first acknowledgement into the new WAL / MANIFEST fsync / first
+	// acknowledged value-log value)?
 	dir2 := e.newDir("flagd")
-	s2 := &crashSpec{Dir: dir2, EventLog: filepath.Join(e.scratch, "flag2.log"), SnapDir: e.scratch, NCommits: 1, First: 1,
-		MemSize: 8 << 10, Sync: true, BigEvery: 1, BigSize: 100}
+	s2 := &crashSpec{Dir: dir2, EventLog: filepath.Join(e.scratch, "flag2.log"), SnapDir: e.scratch, NCommits: 90, First: 1,
+		MemSize: 8 << 10, Sync: true, BigEvery: 2, BigSize: 100}
 	os.Remove(s2.EventLog)
 	e.runChild(s2, 0)
 	evs := crashReadLog(s2.EventLog)
-	for i, ev := range evs {
-		if ev.Kind == "H" && ev.Name == "persist.vlog.created" {
-			for _, ev2 := range evs[i+1:] {
-				if ev2.Kind == "H" && ev2.Name == "persist.syncdir.done" {
-					fixDir = true
-				}
-				if ev2.Kind == "OPEN-DONE" {
-					break
-				}
-			}
-		}
-	}
+	fixDir = crashDirsyncRepaired(evs)
 	os.RemoveAll(dir)
 	os.RemoveAll(dir2)
 	return
@@ -1879,4 +1900,52 @@ func (e *crashEnv) powerJob(k int, wl crashWorkload, s *crashSpec, evs []crashEv
 	}
 	r.term = fmt.Sprintf("(CPower %s %s %s %s)", crashCfgTerm(true, fixDir, fixZero), ListOf(t.evs), Bool(r.po.OpenErr == ""), ents)
 	return r
+}
+
+
+// true iff, in this log, every new WAL, flushed table and value-log file has its name covered
+// by a directory fsync before the first event that relies on it (the F9 witnesses no longer
+// reproduce); needs at least one rotation and one flush in the log
+func crashDirsyncRepaired(evs []crashEvent) bool {
+	durable := ""
+	needWal, needSst, needVlog := "", "", ""
+	sawRot, sawFlush, sawVlog := false, false, false
+	ok := true
+	for i, ev := range evs {
+		if ev.Kind != "H" {
+			continue
+		}
+		switch ev.Name {
+		case "persist.syncdir.done":
+			if i+1 < len(evs) && evs[i+1].Kind == "LS" {
+				durable = evs[i+1].Rest
+			}
+		case "persist.mem.rotated":
+			needWal = fmt.Sprintf("%05d.mem", ev.Args[0])
+			sawRot = true
+		case "persist.vlog.created":
+			needVlog = fmt.Sprintf("%06d.vlog", ev.Args[0])
+		case "persist.vlog.written":
+			if ev.Args[2] > 0 {
+				sawVlog = true
+			}
+		case "persist.flush.table":
+			needSst = fmt.Sprintf("%06d.sst", ev.Args[0])
+			sawFlush = true
+		case "persist.manifest.done":
+			if needSst != "" && !crashHas(durable, needSst) {
+				ok = false
+			}
+			needSst = ""
+		case "persist.batch.ack":
+			if needWal != "" && !crashHas(durable, needWal) {
+				ok = false
+			}
+			needWal = ""
+			if sawVlog && needVlog != "" && !crashHas(durable, needVlog) {
+				ok = false
+			}
+		}
+	}
+	return ok && sawRot && sawFlush && sawVlog
 }
